@@ -281,6 +281,9 @@ def suite_reuse(rng, tier):
             [("send", l, "ok") for l in TRICKY_LABELS] + [("send", LBL_A6_LAST, "frag"), ("send", LBL_3_ABC, "small")] + \
             [("send", LBL_A6, "ptype"), ("send", LBL_Z6, "ok"), ("send", LBL_B3, "ok"), ("send", LBL_A6, "ext"), ("send", LBL_A6, "extsmall"),
              ("reset",), ("disable",), ("enable",), ("max", 1), ("max", 2), ("max", 0), ("max", 255), ("setcrc",),
+             # a call refused with ErrorPduLength (PDU above the total-length range, buffer too small for a complete
+             # packet): like every refused call it must leave the sender's label memory alone (round K04)
+             ("send", LBL_A6, "toolong"), ("send", LBL_B6, "toolong"), ("send", LBL_A3, "toolong"), ("send", LBL_BC, "toolong"),
              ("fragstart", LBL_A6), ("fragstart", LBL_B3), ("fragstart", LBL_BC), ("cont",), ("cont",),
              ("fragalias", LBL_B6), ("fragalias", LBL_BC),
              # header extensions on the paths that also drive the re-use state: broadcast / explicit re-use /
@@ -304,7 +307,7 @@ def suite_reuse(rng, tier):
     # path, then X twice (the first X after a broadcast or another label must carry its full label)
     for x in (LBL_A6, LBL_A3):
         for y in (LBL_BC, LBL_B6, LBL_RU, x):
-            for how in ("ok", "small", "frag", "ext", "extsmall", "extfrag", "ptype"):
+            for how in ("ok", "small", "frag", "ext", "extsmall", "extfrag", "ptype", "toolong"):
                 for cfg in (None, ("max", 2)):
                     seqs.append(tuple(([cfg] if cfg else []) + [("send", x, "ok"), ("send", y, how), ("send", x, "ok"), ("send", x, "ok")]))
     # orphans: an open train is replaced by an aliasing one; its continuation is refused, the label stays
@@ -388,6 +391,9 @@ def suite_reuse(rng, tier):
                     bl = 20
                 elif how == "ptype":
                     pt = 0x0300
+                elif how == "toolong":
+                    pdu = bs_gen(n + 3, 65535)
+                    bl = 20
                 elif how == "ext":
                     exts = [(0x0301, b"\x01\x02\x03\x04")]
                 elif how == "extsmall":
